@@ -65,6 +65,23 @@ func c09(c *Ctx, p *Prog) {
 				return
 			}
 			nCallers++
+			// a three-way comparison is turned into "before" by "< 0", nothing else
+			if v := ci.Value(); v != nil && isInteger(v.Type()) {
+				okUse := true
+				for _, r := range *v.Referrers() {
+					switch x := r.(type) {
+					case *ssa.DebugRef:
+					case *ssa.BinOp:
+						k, isK := constInt(x.Y)
+						if !(x.X == ssa.Value(v) && x.Op == token.LSS && isK && k == 0) {
+							okUse = false
+						}
+					default:
+						okUse = false
+					}
+				}
+				c.Check(okUse, "C09/R5", fnName(fn)+":three-way-result", p.pos(in.Pos()), "the three-way result is read as 'before' through < 0", "the three-way comparison's result is not read through '< 0' only (e.g. <= 0 makes equal keys sort before each other: not a strict order)")
+			}
 			src := ci.Common().Args[0]
 			// through closures: free variable bound to a call result
 			var call *ssa.Call
@@ -332,7 +349,7 @@ func c09LessTable(c *Ctx, p *Prog, lessFn *ssa.Function, idxF *types.Var, R stri
 				if o.Term != "return" || len(o.Results) != 1 {
 					errs = append(errs, "differing values must decide the comparison")
 				} else if cmpNZ != nil && *cmpNZ {
-					r := o.Results[0]
+					r := lessOf(o.Results[0])
 					if !(r.Op == "binop" && r.Tok == token.LSS && r.Args[0].Op == "call" && r.Args[1].isConst()) {
 						if cmpNeg == nil {
 							errs = append(errs, "a non-zero comparator result must decide by its sign (cmp < 0)")
@@ -341,7 +358,7 @@ func c09LessTable(c *Ctx, p *Prog, lessFn *ssa.Function, idxF *types.Var, R stri
 						}
 					}
 				} else {
-					r := o.Results[0]
+					r := lessOf(o.Results[0])
 					okFb := r.Op == "binop" && r.Tok == token.LSS && isString2(r.Args[0].Type)
 					if okFb {
 						x, y := r.Args[0], r.Args[1]
@@ -369,7 +386,16 @@ func c09LessTable(c *Ctx, p *Prog, lessFn *ssa.Function, idxF *types.Var, R stri
 		}
 		if ret, ok := b.Instrs[len(b.Instrs)-1].(*ssa.Return); ok && !loopBodyStart(lp).Dominates(b) {
 			cst, isC := ret.Results[0].(*ssa.Const)
-			c.Check(isC && cst.Value != nil && !constant.BoolVal(cst.Value), R, "comparison:equal-tuples", p.pos(ret.Pos()), "equal tuples are not less", "equal tuples compare as less: the relation is not irreflexive")
+			notLess := false
+			if isC && cst.Value != nil {
+				switch cst.Value.Kind() {
+				case constant.Bool:
+					notLess = !constant.BoolVal(cst.Value)
+				case constant.Int:
+					notLess = constant.Sign(cst.Value) == 0 // three-way form: equal
+				}
+			}
+			c.Check(notLess, R, "comparison:equal-tuples", p.pos(ret.Pos()), "equal tuples are not less", "equal tuples compare as less: the relation is not irreflexive")
 		}
 	}
 }
@@ -970,4 +996,23 @@ func c09FlatInvariant(c *Ctx, p *Prog, R string) {
 	}
 	c.Floor(R, "flattened-field cache builders", nB, 1)
 	c.Floor(R, "flattened-field cache resets", nG, 1)
+}
+
+// lessOf reads a comparison's result as "a sorts before b". A function that returns bool is taken as it is; a three-way
+// function (negative, zero, positive) is read through "< 0": the field comparator's own value c becomes c < 0,
+// strings.Compare(x, y) becomes x < y, an integer constant k becomes k < 0.
+func lessOf(r *Sym) *Sym {
+	if r == nil || r.Type == nil || !isInteger(r.Type) {
+		return r
+	}
+	boolT := types.Typ[types.Bool]
+	switch {
+	case r.isConst() && r.Const != nil && r.Const.Kind() == constant.Int:
+		return symConst(constant.MakeBool(constant.Sign(r.Const) < 0), boolT)
+	case r.Op == "call" && strings.HasPrefix(r.Name, "strings.Compare") && len(r.Args) == 2:
+		return &Sym{Op: "binop", Tok: token.LSS, Args: []*Sym{r.Args[0], r.Args[1]}, Type: boolT}
+	case r.Op == "call":
+		return &Sym{Op: "binop", Tok: token.LSS, Args: []*Sym{r, symConst(constant.MakeInt64(0), r.Type)}, Type: boolT}
+	}
+	return r
 }
